@@ -272,6 +272,7 @@ _OPS0 = 'enqueue, process, processOne, processIf, processUntil, takeEvent, peekE
 _OPS3 = 'enqueue, takeEvent, peekEvent'
 _OPS4 = 'enqueue, process, processOne, processIf, clearEvents'
 _OPS5 = 'enqueue, process, processOne'
+_OPS6 = 'enqueue, process, processOne, takeEvent, clearEvents'
 _NOREP = '(engine verdict only, no native replay: the per-prototype callback lists inside the heterogeneous classes use std::mutex / std::atomic whatever the Threading policy says, and the native runtime can only schedule the instrumented policy) '
 _QTH = _QT.replace('EventQueue,', 'HeterEventQueue (two prototypes),')
 PROPS['C06'] = Prop(
@@ -299,7 +300,7 @@ PROPS['C11'] = Prop(
               Run('hq_observer_t2_s1_p2', 'q_threads.cpp', {'MODE': 11, 'TT': 2, 'SS': 1, 'OPSET': 4, 'HETER': None}, preempt=2, covers=5, optional_covers=(0, 1, 2, 3, 4), mt=True, native=(), budget_s=1700, bounds=_NOREP + _QTH % (2, 1, _OPS4, ' + one observer thread', 2, _SP_HOOKS)),
               Run('q_observer_t2_s1_auto_p2', 'q_threads.cpp', {'MODE': 11, 'TT': 2, 'SS': 1, 'OPSET': 1}, preempt=2, covers=5, optional_covers=(1, 2), mt=True, shared_points=True, native=(), budget_s=1700, bounds=_QT % (2, 1, _OPS1, ' + one observer thread', 2, _SP_AUTO)),
               Run('q_observer_ops1_s2_p2', 'q_threads.cpp', {'MODE': 11, 'TT': 2, 'SS': 2, 'OPSET': 1}, preempt=2, covers=5, optional_covers=(2,), mt=True, budget_s=1700, bounds=_QT % (2, 2, _OPS1, ' + one observer thread', 2, _SP_HOOKS)),
-              Run('q_observer_all_s1_p3', 'q_threads.cpp', {'MODE': 11, 'TT': 2, 'SS': 1, 'OPSET': 0}, preempt=3, covers=5, mt=True, budget_s=1700, bounds=_QT % (2, 1, _OPS0, ' + one observer thread', 3, _SP_HOOKS)),
+              Run('q_observer_ops6_s1_p3', 'q_threads.cpp', {'MODE': 11, 'TT': 2, 'SS': 1, 'OPSET': 6}, preempt=3, covers=5, mt=True, budget_s=1700, bounds=_QT % (2, 1, _OPS6, ' + one observer thread', 3, _SP_HOOKS)),
               Run('q_observer_ops1_s2_auto_p2', 'q_threads.cpp', {'MODE': 11, 'TT': 2, 'SS': 2, 'OPSET': 1}, preempt=2, covers=5, optional_covers=(2,), mt=True, shared_points=True, native=(), budget_s=1700, bounds=_QT % (2, 2, _OPS1, ' + one observer thread', 2, _SP_AUTO))],
     outside='more threads / calls / preemptions than stated; the observation is attributed to the interval [call, return] of emptyQueue/waitFor',
     assumptions=['an event counts as consumed when its listener has returned (one listener), when a takeEvent call that obtained it began, or when a clearEvents call overlapping the observation could have discarded it'])
@@ -308,8 +309,10 @@ _WT = ('EventQueue, instrumented Threading policy (wait/wait_for are the standar
 PROPS['C07'] = Prop(
     quick=[Run('q_wait_1w_p3', 'q_threads.cpp', {'MODE': 7, 'TT': 2}, preempt=3, covers=8, optional_covers=(0, 1, 2, 3, 4), mt=True, bounds=_WT % ('1 waiter (wait or waitFor, then process)', '', 3)),
            Run('q_wait_1w_scope_p2', 'q_threads.cpp', {'MODE': 7, 'TT': 2, 'SCOPE_THREAD': None}, preempt=2, covers=8, optional_covers=(0, 1, 2, 3, 4), mt=True, bounds=_WT % ('1 waiter', ' + optionally a third thread that opens and closes a DisableQueueNotify scope', 2)),
-           Run('hq_wait_1w_p2', 'q_threads.cpp', {'MODE': 7, 'TT': 2, 'HETER': None}, preempt=2, covers=8, optional_covers=(0, 1, 2, 3, 4, 5, 6, 7), mt=True, native=(), bounds=_NOREP + 'HeterEventQueue: ' + _WT % ('1 waiter (wait or waitFor, then process)', '', 2))],
-    thorough=[Run('hq_wait_1w_p3', 'q_threads.cpp', {'MODE': 7, 'TT': 2, 'HETER': None}, preempt=3, covers=8, optional_covers=(0, 1, 2, 3, 4, 5, 6, 7), mt=True, native=(), budget_s=1700, bounds=_NOREP + 'HeterEventQueue: ' + _WT % ('1 waiter', '', 3)),
+           Run('hq_wait_1w_p2', 'q_threads.cpp', {'MODE': 7, 'TT': 2, 'HETER': None}, preempt=2, covers=8, optional_covers=(0, 1, 2, 3, 4, 5, 6, 7), mt=True, native=(), bounds=_NOREP + 'HeterEventQueue: ' + _WT % ('1 waiter (wait or waitFor, then process)', '', 2)),
+           Run('q_wait_1w_proc_p1', 'q_threads.cpp', {'MODE': 7, 'TT': 2, 'PROC_THREAD': None}, preempt=1, covers=8, optional_covers=(0, 1, 2, 3, 4, 5, 6, 7), mt=True, bounds=_WT % ('1 waiter', ' + a thread running processIf or processUntil on 1..2 events pending at the start (it takes them out, dispatches some, puts the rest back)', 1))],
+    thorough=[Run('q_wait_1w_proc_p2', 'q_threads.cpp', {'MODE': 7, 'TT': 2, 'PROC_THREAD': None}, preempt=2, covers=8, optional_covers=(0, 1, 2, 3, 4, 5, 6, 7), mt=True, budget_s=1700, bounds=_WT % ('1 waiter', ' + a thread running processIf or processUntil on 1..2 events pending at the start', 2)),
+              Run('hq_wait_1w_p3', 'q_threads.cpp', {'MODE': 7, 'TT': 2, 'HETER': None}, preempt=3, covers=8, optional_covers=(0, 1, 2, 3, 4, 5, 6, 7), mt=True, native=(), budget_s=1700, bounds=_NOREP + 'HeterEventQueue: ' + _WT % ('1 waiter', '', 3)),
               Run('q_wait_2w_p3', 'q_threads.cpp', {'MODE': 7, 'TT': 3}, preempt=3, covers=8, optional_covers=(0, 1, 2, 3, 4), mt=True, budget_s=1700, bounds=_WT % ('1 or 2 waiters', '', 3)),
               Run('q_wait_1w_scope_p3', 'q_threads.cpp', {'MODE': 7, 'TT': 2, 'SCOPE_THREAD': None}, preempt=3, covers=8, optional_covers=(0, 1, 2, 3, 4), mt=True, budget_s=1700, bounds=_WT % ('1 waiter', ' + optional scope-only thread', 3)),
               Run('q_wait_1w_auto_p2', 'q_threads.cpp', {'MODE': 7, 'TT': 2}, preempt=2, covers=8, optional_covers=(0, 1, 2, 3, 4), mt=True, shared_points=True, native=(), budget_s=1700, bounds=_WT % ('1 waiter', '; automatic scheduling points on shared plain accesses', 2))],
